@@ -24,6 +24,7 @@ def run(ctx):
                        "non-trivial = distinct cases with a non-empty patch in which old holds at least one row the ACL does not cover")
     ctx.assumptions += ["ACLs are slot-closed w.r.t. the rulebook (an ACL rule is a patching rule pattern, stars optionally bound to a key word)",
                         "device model assumptions of C01", "rulebook logics emit the row or its negation (catalogue logics)"]
+    mc_pipeline(ctx, quick)
     profiles = ["huawei", "cisco"] if quick else ["huawei", "cisco", "arista", "h3c", "nexus"]
     per = 260 if quick else 6000
     # outside C02's stated domain ("rulebooks whose logic emits only the row or its negation"):
@@ -76,6 +77,27 @@ def run(ctx):
                 rec["rule_text"] = cat.compiled[rec["rb"] - 1]["text"]
                 rec["rulebook"] = cat.names[rec["rb"] - 1]
                 ctx.reject(rec["id"], v, rec, signature_of(rec, v, cat.prefix))
+
+
+def mc_pipeline(ctx, quick):
+    """the composed pipeline (spec/Annet.tla): A-layers of apply_acl / make_diff+apply_acl_diff / make_patch / cmd_paths on the P-layer
+    device, judged by the P-layer clauses of this property, for every ACL of a rulebook's family x old x ACL-confined new"""
+    import os
+    base = open(os.path.join(core.SPEC, "mc", "MC_Pipeline.cfg")).read()
+    runs = [(9, True, None), (5, True, None), (9, False, "Safe"), (6, True, "Safe")]
+    if not quick:
+        runs += [(4, True, None), (1, True, None)]
+    for (e, protect, must_fail) in runs:
+        cfg = os.path.join(ctx.scratch, "pipe_%d_%d.cfg" % (e, protect))
+        open(cfg, "w").write(base.replace("Entry = 4", "Entry = %d" % e).replace("Protect = TRUE", "Protect = %s" % str(protect).upper()))
+        r = ctx.mc("mc/MC_Pipeline.tla", cfg, name="MC_Pipeline[entry=%d,protect=%s]" % (e, protect), expect_ok=False, timeout=3000)
+        if must_fail:
+            if must_fail not in r.violated:
+                raise core.Machinery("anti-vacuity: MC_Pipeline entry %d protect=%s no longer violates %s" % (e, protect, must_fail))
+            ctx.cov["mc_runs"][-1]["expected"] = ("Safe violated: " + ("apply_acl_diff without its cant_delete branch (regression instance)" if not protect else
+                                                                      "design-level instance of the recorded %ordered-block finding"))
+        elif r.violated:
+            raise core.Machinery("MC_Pipeline entry %d: %s\n%s" % (e, r.violated, r.out[-1500:]))
 
 
 def combined_text(rnd, parts):
